@@ -31,6 +31,7 @@ class Mirror:
         self.rank = {}
         self.observed = []
         self.core = {}
+        self.obs = {}
 
     def rk(self, c):
         return self.rank.get(c, 0)
@@ -122,6 +123,9 @@ class Mirror:
             for h in rest:
                 for cc in c["acq"]:
                     edges.append((h[0], cc, q, "call " + f if cc in self.core.get(f, ()) else "cbcall " + f))
+            if rest:
+                for kind in self.obs.get(f, ()):
+                    self.observed.append((q, kind, rest))
             if c["post"] is not None:
                 l2 = self.subst(d["params"], args, c["post"])
                 if l2 is None:
@@ -254,15 +258,29 @@ def infer(fns, externals):
             if new != core_acq[q]:
                 core_acq[q] = new
                 changed = True
+    obs = {q: set(n[1] for n in LK.walk(fns[q]["body"]) if n[0] == "Observer") for q in fns}
+    changed = True
+    while changed:
+        changed = False
+        for q in order:
+            new = set(obs[q])
+            for c in cal[q]:
+                new |= obs[c]
+            if new != obs[q]:
+                obs[q] = new
+                changed = True
     for q in fns:
         m.contract[q]["acq"] = acq[q]
     m.api_acq = api
     m.core = core_acq
+    m.obs = obs
     # ranking from the held-while-acquiring edges
     alledges = []
+    m.observed = []
     for q in fns:
         _, _, _, edges = m.run_fn(q, m.contract[q]["pre"])
         alledges += edges
+    m.observed_final = list(m.observed)
     classes = sorted(set(c for q in fns for c in acq[q]) | set(e[0] for e in alledges) | set(e[1] for e in alledges))
     graph = {c: set() for c in classes}
     blame = {}
@@ -333,6 +351,250 @@ def topo(g):
                 ready.append(b)
     return out
 
+
+
+# ------------------------------------------------------------------ path witnesses (mirror of Locks/PathRun.v)
+
+FUEL = 4000
+
+
+class Walker:
+    """Python twin of PathRun.run with const_env (every receiver denotes object 0, so an instance is its class)."""
+
+    def __init__(self, fns, names, externals, rank):
+        self.fns, self.names, self.ext, self.rank = fns, names, externals, rank
+
+    def run(self, fuel, s, ch):
+        """returns (trace, kind, rest-of-choices) or None; trace = [('A'|'R', cls)]"""
+        if fuel == 0:
+            return None
+        n = fuel - 1
+        k = s[0]
+        if k in ("Skip", "Assign", "Observer"):
+            return ([], "N", ch)
+        if k == "Seq":
+            a = self.run(n, s[1], ch)
+            if a is None or a[1] != "N":
+                return a
+            b = self.run(n, s[2], a[2])
+            return None if b is None else (a[0] + b[0], b[1], b[2])
+        if k == "If":
+            if not ch:
+                return ([], "X", [])
+            return self.run(n, s[1] if ch[0] == 0 else s[2], ch[1:])
+        if k == "Loop":
+            a = self.run(n, s[1], ch)
+            if a is None:
+                return None
+            if a[1] in ("N", "C"):
+                b = self.run(n, s, a[2])
+                return None if b is None else (a[0] + b[0], b[1], b[2])
+            if a[1] == "B":
+                return (a[0], "N", a[2])
+            return a
+        if k in ("BrkScope", "ContScope"):
+            a = self.run(n, s[1], ch)
+            if a is not None and a[1] == ("B" if k == "BrkScope" else "C"):
+                return (a[0], "N", a[2])
+            return a
+        if k == "Block":
+            a = self.run(n, s[1], ch)
+            if a is None or a[1] not in ("N", "G"):
+                return a
+            b = self.run(n, s[2], a[2])
+            return None if b is None else (a[0] + b[0], b[1], b[2])
+        if k == "Wait":
+            return ([("A", s[1][0])], "N", ch)
+        if k == "Post":
+            return ([("R", s[1][0])], "N", ch)
+        if k in ("Return", "Break", "Continue", "Goto"):
+            return ([], {"Return": "R", "Break": "B", "Continue": "C", "Goto": "G"}[k], ch)
+        if k == "Call":
+            if s[1] not in self.fns:
+                return ([], "N", ch) if s[1] in self.ext else None
+            a = self.run(n, self.fns[s[1]]["body"], ch)
+            if a is None:
+                return None
+            if a[1] in ("N", "R"):
+                return (a[0], "N", a[2])
+            if a[1] == "X":
+                return (a[0], "X", a[2])
+            return None
+        if k == "Callback":
+            if not ch:
+                return ([], "X", [])
+            if ch[0] == 0:
+                return ([], "N", ch[1:])
+            i = ch[0] - 1
+            if i >= len(self.names):
+                return None
+            d = self.fns[self.names[i]]
+            if not (d["public"] and d["_pre"] is None and d["_post"] is None):
+                return None
+            a = self.run(n, d["body"], ch[1:])
+            if a is None:
+                return None
+            if a[1] in ("N", "R"):
+                b = self.run(n, s, a[2])
+                return None if b is None else (a[0] + b[0], b[1], b[2])
+            if a[1] == "X":
+                return (a[0], "X", a[2])
+            return None
+        return None
+
+    def violates(self, res):
+        if res is None:
+            return False
+        tr, k, _ = res
+        H = []
+        for op, c in tr:
+            if op == "A":
+                if not all(self.rank.get(h, 0) < self.rank.get(c, 0) for h in H):
+                    return True
+                H.insert(0, c)
+            else:
+                if c not in H:
+                    return True
+                H.remove(c)
+        return k in ("N", "R") and bool(H)
+
+    # ---- choice lists that steer to a given node
+    def complete(self, s, want, depth=0):
+        """choices that make s end with one of the kinds in `want`; None when impossible (bounded)"""
+        k = s[0]
+        if depth > 40:
+            return None
+        if k in ("Skip", "Assign", "Observer", "Wait", "Post"):
+            return [] if "N" in want else None
+        if k in ("Return", "Break", "Continue", "Goto"):
+            return [] if {"Return": "R", "Break": "B", "Continue": "C", "Goto": "G"}[k] in want else None
+        if k == "Call":
+            if "N" not in want:
+                return None
+            if s[1] not in self.fns:
+                return []
+            return self.complete(self.fns[s[1]]["body"], {"N", "R"}, depth + 1)
+        if k == "Callback":
+            return [0] if "N" in want else None
+        if k == "Seq":
+            other = want - {"N"}
+            if other:
+                a = self.complete(s[1], other, depth + 1)
+                if a is not None:
+                    return a
+            a = self.complete(s[1], {"N"}, depth + 1)
+            if a is None:
+                return None
+            b = self.complete(s[2], want, depth + 1)
+            return None if b is None else a + b
+        if k == "If":
+            a = self.complete(s[1], want, depth + 1)
+            if a is not None:
+                return [0] + a
+            b = self.complete(s[2], want, depth + 1)
+            return None if b is None else [1] + b
+        if k == "Loop":
+            w = set()
+            if "N" in want:
+                w.add("B")
+            w |= want & {"R", "G"}
+            return self.complete(s[1], w, depth + 1) if w else None
+        if k in ("BrkScope", "ContScope"):
+            inner = "B" if k == "BrkScope" else "C"
+            w = set(want) - {inner}
+            if "N" in want:
+                w.add(inner)
+            return self.complete(s[1], w, depth + 1) if w else None
+        if k == "Block":
+            direct = want - {"N", "G"}
+            if direct:
+                a = self.complete(s[1], direct, depth + 1)
+                if a is not None:
+                    return a
+            a = self.complete(s[1], {"N", "G"}, depth + 1)
+            if a is None:
+                return None
+            b = self.complete(s[2], want, depth + 1)
+            return None if b is None else a + b
+        return None
+
+    def reach(self, s, pred, depth=0):
+        """choices after which the walk has just executed a node satisfying pred (descending into callees); or None"""
+        k = s[0]
+        if depth > 12:
+            return None
+        if pred(s):
+            return self.complete(s, {"N", "R", "B", "C", "G"}, 0) if k in ("Return",) else []
+        if k == "Call" and s[1] in self.fns:
+            return self.reach(self.fns[s[1]]["body"], pred, depth + 1)
+        if k == "Seq":
+            a = self.reach(s[1], pred, depth)
+            if a is not None:
+                return a
+            pre = self.complete(s[1], {"N"})
+            if pre is None:
+                return None
+            b = self.reach(s[2], pred, depth)
+            return None if b is None else pre + b
+        if k == "If":
+            a = self.reach(s[1], pred, depth)
+            if a is not None:
+                return [0] + a
+            b = self.reach(s[2], pred, depth)
+            return None if b is None else [1] + b
+        if k in ("Loop", "BrkScope", "ContScope"):
+            return self.reach(s[1], pred, depth)
+        if k == "Block":
+            a = self.reach(s[1], pred, depth)
+            if a is not None:
+                return a
+            pre = self.complete(s[1], {"N", "G"})
+            if pre is None:
+                return None
+            b = self.reach(s[2], pred, depth)
+            return None if b is None else pre + b
+        return None
+
+
+def find_witness(fns, names, externals, m, q):
+    """a choice list whose walk through q violates the discipline (checked again by Coq: violates ... = true)"""
+    for n in fns:
+        fns[n]["_pre"], fns[n]["_post"] = m.contract[n]["pre"], m.contract[n]["post"]
+    w = Walker(fns, names, externals, m.rank)
+    body = fns[q]["body"]
+    sites = []
+
+    def collect(s, depth, seen):
+        for n in LK.walk(s):
+            if n[0] in ("Post", "Wait", "Callback", "Return"):
+                sites.append(n)
+            elif n[0] == "Call" and n[1] in fns and depth < 3 and n[1] not in seen:
+                collect(fns[n[1]]["body"], depth + 1, seen | {n[1]})
+    collect(body, 0, {q})
+    own = set(id(n) for n in LK.walk(body))
+    prio = {"Post": 0, "Wait": 1, "Return": 2, "Callback": 3}
+    sites.sort(key=lambda n: (0 if id(n) in own else 1, prio[n[0]]))
+    api = [i for i, n in enumerate(names) if fns[n]["public"] and m.contract[n]["pre"] is None and m.contract[n]["post"] is None]
+    tried = 0
+    for site in sites:
+        ch = w.reach(body, lambda x, site=site: x is site)
+        if ch is None:
+            continue
+        cands = [ch]
+        if site[0] == "Callback":
+            for i in api:
+                for cls in sorted(m.contract[names[i]]["acq"]):
+                    inner = w.reach(fns[names[i]]["body"], lambda x, cls=cls: x[0] == "Wait" and x[1][0] == cls)
+                    if inner is not None:
+                        cands.append(ch + [i + 1] + inner)
+        for c in cands:
+            tried += 1
+            if tried > 4000:
+                return None
+            r = w.run(FUEL, body, list(c))
+            if w.violates(r):
+                return dict(choices=c, fuel=FUEL, trace=["%s %s" % ("wait" if o == "A" else "post", cl) for o, cl in r[0]], end=r[1])
+    return None
 
 # ------------------------------------------------------------------ Gallina printer
 
@@ -533,6 +795,35 @@ def gen():
                           "(* GENERATED from known_findings.jsonl (open C17 entries, field \"functions\") -- do not edit *)\n"
                           "From Coq Require Import String List.\nImport ListNotations.\nLocal Open Scope string_scope.\n"
                           "Definition known : list string := %s.\n" % clist(cstr(r) for r in rows))
+    # witnesses for every function the mirror (or the ranking) rejects; Coq re-checks each by vm_compute
+    sorted_names = sorted(fns)
+    bad = []
+    for q in sorted_names:
+        c = m.contract[q]
+        _, exits, errs, edges = m.run_fn(q, c["pre"])
+        postl = (c["post"],) if c["post"] else ()
+        order_bad = any(m.rank.get(a, 0) >= m.rank.get(b, 0) for a, b, _, _ in edges)
+        if errs or any(x != postl for x in exits) or order_bad:
+            bad.append(q)
+    witness = {}
+    for q in bad:
+        if m.contract[q]["pre"] is None:
+            wv = find_witness(fns, sorted_names, tr.externals, m, q)
+            if wv:
+                witness[q] = wv
+    ref = ["(* GENERATED: path witnesses for the functions that violate the lock discipline on this tree -- do not edit *)",
+           "From Coq Require Import String List.", "From L60870 Require Import Locks.Skeleton Locks.Checker Locks.PathRun gen.LockProgram.",
+           "Import ListNotations.", ""]
+    for q, wv in sorted(witness.items()):
+        ref.append("(* %s: %s ... ends %s *)" % (q, "; ".join(wv["trace"][-6:]), wv["end"]))
+        ref.append("Theorem C17_%s_refuted : exists r tr k r1, exec [] program r (fbody %s) tr k r1 /\\\n"
+                   "  (replay (rk program) tr [] = None \\/ exists H, replay (rk program) tr [] = Some H /\\ H <> [] /\\ (k = ONormal \\/ k = ORet)).\n"
+                   "Proof. apply (violates_sound program %d %s %s). vm_compute. reflexivity. Qed.\n"
+                   % (ident(q)[2:], ident(q), wv["fuel"], ident(q), clist(str(x) for x in wv["choices"])))
+    core.write_if_changed(core.COQ / "gen" / "LockRefuted.v", "\n".join(ref) + "\n")
+    for n in fns:
+        fns[n].pop("_pre", None)
+        fns[n].pop("_post", None)
     meta = dict(functions={q: dict(file=d["file"], line=d["line"], public=d["public"], params=d["params"],
                                    pre=m.contract[q]["pre"], post=m.contract[q]["post"], acq=sorted(m.contract[q]["acq"]),
                                    waits=sum(1 for n in LK.walk(d["body"]) if n[0] == "Wait"),
@@ -544,7 +835,10 @@ def gen():
                 fp_targets={k: sorted(v) for k, v in tr.fp_targets.items()}, fp_unknown=sorted(tr.fp_unknown))
     core.CACHE.mkdir(exist_ok=True)
     (core.CACHE / "gen_locks_meta.json").write_text(json.dumps(meta, indent=1, default=list))
-    return dict(meta=meta, fns=fns, mirror=m)
+    meta["witness"] = witness
+    meta["mirror_bad"] = bad
+    (core.CACHE / "gen_locks_meta.json").write_text(json.dumps(meta, indent=1, default=list))
+    return dict(meta=meta, fns=fns, mirror=m, witness=witness)
 
 
 if __name__ == "__main__":
